@@ -65,6 +65,11 @@ CheckEvent(e) ==
                  [index |-> ix.name, got |-> got, want |-> Groups(ix, e.post), cfg |-> e.cfg.id,
                   order |-> e.order, path |-> e.path])
     /\ \A i \in DOMAIN e.lookups : CheckLookup(e, e.lookups[i])
+    /\ \A i \in DOMAIN e.cfg.indexes :
+         LET ix == e.cfg.indexes[i]
+             got == {SeqToSet(e.idx2[ix.name][k]) : k \in DOMAIN e.idx2[ix.name]}
+         IN  Chk(got = Groups(ix, e.post), "C05", "an index no longer agrees with the rows after look-ups (a look-up changed it)",
+                 [index |-> ix.name, got |-> got, want |-> Groups(ix, e.post), cfg |-> e.cfg.id, order |-> e.order, path |-> e.path])
 
 Init == l = 1 /\ done = FALSE
 Next ==
